@@ -9,7 +9,7 @@ from vf import gen, chain
 @st.composite
 def cases(draw, tier):
     big = tier == "thorough"
-    two = draw(st.integers(0, 3)) == 0
+    two = draw(st.integers(0, 2)) == 0
     dav = draw(st.integers(0, 7 if big else 191)) == 0
     if dav:
         # large enough for the iterative (Davidson) path: the optimizer only takes it when the local tensor has >= 1000 entries
@@ -92,7 +92,7 @@ class C08(Prop):
                    "nroots <= sector dimension / 2 (the local problems must have at least nroots solutions)"]
 
     def budget(self, tier):
-        return dict(examples=1280, shards=16) if tier == "quick" else dict(examples=24000, shards=16)
+        return dict(examples=1920, shards=16) if tier == "quick" else dict(examples=24000, shards=16)
 
     def strategy(self, tier):
         return cases(tier)
